@@ -165,6 +165,13 @@ def run(p, report, tier):
                                       " (random_state is None/omitted on this call path -> numpy global generator)"),
                                path=ev.path())
                     if is_pool_query:
+                        owned = [o for o in gen.origins if isinstance(o, tuple) and str(o[0]).startswith("p:")
+                                 and not (o[0] == "p:random_state" and not o[1])]
+                        if owned:
+                            report.add("R6.4", ent, construct + " [generator of a caller-supplied object]", ev.loc, False,
+                                       detail=f"the draw consumes {owned[0][0][2:]}.{'.'.join(owned[0][1])}, the generator of an "
+                                              "object the caller passed in: repeating the same call gives another result",
+                                       path=ev.path())
                         ok4 = cls != "raw_ctor_param"
                         report.add("R6.4", ent, construct, ev.loc, ok4,
                                    detail="draws from the caller's RandomState object held in self.random_state "
